@@ -7,7 +7,7 @@ import ast
 from ..index import ClassInfo, FuncInfo
 from ..nf import NF, Atom, Undecided, app, atoms_of, lift, nf_equal, single_atom, sym
 from ..values import NONE, Cond, ListV, NoneV, Num, ObjV, OpaqueV, StrV, TupleV, valkey
-from .common import both_polarities, K, N, Pdim, call_method, data_sym, guard_outcomes, new_executor, raise_loc, returns, run
+from .common import atoms_of_cond, both_polarities, K, N, Pdim, call_method, data_sym, guard_outcomes, new_executor, raise_loc, returns, run
 
 EXPLANATION = (
     "Static decision by exhaustive path enumeration of evaluate() for every registered scorer (the `_evaluate` kernels are cut off "
@@ -126,6 +126,11 @@ def check_scorer(ctx, pkg, name, width, inner, mode):
     if not reach:
         ctx.violation("C13.a CHECK-DOMINATES-KERNEL", f"{name}|{mode}", loc, "no path reaches the kernel: every cuts array is rejected", found=[p.exc.exc_name for p in paths if p.exc][:4])
         return
+    if mode == "shape-known":
+        # whether a (k, width) integer array is accepted depends on its entries, never on the number k of cuts
+        kkey = Atom("sym", "k").key
+        badk = [p for p in paths if p.outcome == "raise" and p.facts and any(a.key == kkey for a in atoms_of_cond(p.facts[-1][0]))]
+        ctx.check(not badk, "C13.c CHECK-COMPLETE", f"{name}|row-count", raise_loc(badk[0], loc) if badk else loc, "no rejection is decided by the number of rows of the cuts array (a test of the wrong dimension)", found=repr(badk[0].facts[-1][0])[:120] if badk else "no such guard", expected="guards on the last dimension, the dtype, the entries")
     cuts_s = sym("cuts")
     n = lift(N)
     if mode == "shape-known":
